@@ -230,18 +230,33 @@ def run(ctx):
             continue
         n_w += 1
         reads = []
+        from ..loops import trip_counts
+
+        tc_ = trip_counts(rb)
         for _bi, t_ in rb.calls():
             c = t_.get("res") or ""
             if c.endswith("BinReaderExt::read_le") or c.endswith("BinReaderExt::read_be") or c.endswith("::read_le"):
                 ga = (t_["f"].get("k") or {}).get("ga", [])
-                reads.append((c.split("::")[-1], ga[-1] if ga else "?"))
+                # a read written once in a loop over a fixed-size array happens once per element
+                mult = 1
+                for h_, (n_, bl_, _nb, _el) in tc_.items():
+                    if _bi in bl_ and all(rb.dominates(_bi, l_) for l_ in rb.pred(h_) if l_ in bl_):
+                        mult *= n_
+                reads += [(c.split("::")[-1], ga[-1] if ga else "?")] * mult
         ok = reads == [("read_le", sty)] * cnt
         ctx.ob("WIDTH", fn, ok, f"{fn} performs {reads}; reference {cnt} x little-endian {sty} ({total} bytes)", rb.file, rb.line, sample=(fn == "read_half4"))
         if fn in ("read_half4", "read_half2"):
             calls = [(t_.get("res") or "").split("::")[-1] for _bi, t_ in rb.calls()]
             ctx.ob("WIDTH", f"{fn}|decode", calls.count("from_bits") == cnt and calls.count("to_f32") == cnt, f"{fn} decodes with {calls.count('from_bits')} x f16::from_bits and {calls.count('to_f32')} x to_f32", rb.file, rb.line)
         if fn == "read_byte_float4":
-            divs = [s for _b, _s, s in rb.stmts() if s.get("rv", {}).get("k") == "bin" and s["rv"]["op"] == "Div"]
+            divs = []
+            for _b, _s, s in rb.stmts():
+                if s.get("rv", {}).get("k") == "bin" and s["rv"]["op"] == "Div":
+                    mult = 1
+                    for h_, (n_, bl_, _nb, _el) in tc_.items():
+                        if _b in bl_ and all(rb.dominates(_b, l_) for l_ in rb.pred(h_) if l_ in bl_):
+                            mult *= n_
+                    divs += [s] * mult
             consts = {(o.get("k") or {}).get("uneval") or (o.get("k") or {}).get("bits") for s in divs for o in (s["rv"]["b"],)}
             ctx.ob("WIDTH", f"{fn}|decode", len(divs) == 4 and consts <= {"model_file_operations::MAX_BYTE_FLOAT", str(0x437F0000)}, f"{fn} divides {len(divs)} components by {sorted(str(c) for c in consts)}; must be 255.0", rb.file, rb.line)
         if fn == "read_tangent":
